@@ -369,6 +369,20 @@ class MPath:
         return [MPath(self.fs, self.parts + (e[0],)) for e in self._listed(n)
                 if not isinstance(e[0], Sym) and fnmatch.fnmatch(e[0], pat)]
 
+    def rglob(self, pat):
+        import fnmatch
+        n = self._node()
+        if not isinstance(n, DirNode):           # (like pathlib: nothing for a file or a missing path)
+            return []
+        out = []
+        for e in self._listed(n):
+            child = MPath(self.fs, self.parts + (e[0],))
+            if isinstance(e[0], Sym) or fnmatch.fnmatch(e[0], pat):
+                out.append(child)
+            if isinstance(e[1], DirNode):
+                out.extend(child.rglob(pat))
+        return out
+
     # ---- mutations (one tick each)
     def mkdir(self, mode=0o777, parents=False, exist_ok=False):
         n = self._node()
@@ -421,6 +435,32 @@ class MPath:
         n.link = self.parts[:-1] + tuple(tp) if not (isinstance(target, MPath) and target.parts[:1] == self.parts[:1]
                                                    and len(target.parts) > len(self.parts) - 1) else tuple(tp)
         d.entries.append([self.parts[-1], n])
+
+    def replace(self, target):
+        """os.replace semantics: atomic; a directory cannot replace a non-empty directory"""
+        t = target if isinstance(target, MPath) else self.fs.path(str(target))
+        da, ea = self.fs.parent_entry(self.parts)
+        if ea is None:
+            raise FileNotFoundError(str(self))
+        db, eb = self.fs.parent_entry(t.parts)
+        if db is None:
+            raise FileNotFoundError(str(t.parent))
+        if eb is not None and isinstance(eb[1], DirNode):
+            if not isinstance(ea[1], DirNode):
+                raise IsADirectoryError(str(t))
+            if eb[1].entries:
+                raise OSError(39, 'Directory not empty', str(t))
+        if eb is not None and isinstance(ea[1], DirNode) and not isinstance(eb[1], DirNode):
+            raise NotADirectoryError(str(t))
+        self.fs.tick(('rename', self.parts, t.parts))
+        _drop(da.entries, ea)
+        if eb is not None:
+            _drop(db.entries, eb)
+        db.entries.append([t.parts[-1], ea[1]])
+        return t
+
+    def rename(self, target):
+        return self.replace(target)
 
     def touch(self):
         if not self.exists():
